@@ -134,10 +134,11 @@ Init ==
   /\ status = [s |-> "run"]
 
 \* `in` is the history including the offending piece, `e` the entry it belongs to
-Reject(in, e, kinds, info) ==
-  /\ status' = [s |-> "rej", entry |-> e, post |-> pi, kinds |-> kinds, info |-> info]
+RejectAt(in, e, post, kinds, info) ==
+  /\ status' = [s |-> "rej", entry |-> e, post |-> post, kinds |-> kinds, info |-> info]
   /\ input' = in
   /\ UNCHANGED <<ei, pi, acct, cmdt, prec, bal, cur, reg, prices, ghost>>
+Reject(in, e, kinds, info) == RejectAt(in, e, pi, kinds, info)
 
 EndEntry == ei' = ei /\ pi' = 0
 Between == Running /\ pi = 0
@@ -194,7 +195,7 @@ PostRegular(p) ==
                      /\ cur' = [cur EXCEPT !.posts = Append(@, [acct |-> a, amt |-> amt, kind |-> "reg",
                                                                bv |-> BalancingValue(ct, p)]),
                                            !.res = AmtAdd(@, BalancingValue(ct, p)),   \* zero entries retained
-                                           !.deferred = IF defer THEN Append(@, [acct |-> a, q |-> p.asrt, at |-> nb]) ELSE @]
+                                           !.deferred = IF defer THEN Append(@, [acct |-> a, q |-> p.asrt, at |-> nb, post |-> Len(cur.posts) + 1]) ELSE @]
                      /\ prices' = prices \o PostPrice(ct, cur.date, p)
                      /\ ghost' = [ghost EXCEPT !.flat = @ + 1, !.deferred = @ \/ defer,
                                                !.asserts = IF hasA THEN Append(@, [pos |-> ghost.flat + 1, acct |-> a, q |-> p.asrt]) ELSE @]
@@ -254,7 +255,10 @@ CommitDeduce ==
          nb == Strip(AmtAdd(BalOf(bal, a), d))
          \* a deferred assertion is judged on the balance at its own position plus the deduced amount
          bad == {i \in 1..Len(cur.deferred) : ~Holds(Strip(AmtAdd(cur.deferred[i].at, d)), cmdt, cur.deferred[i].q)}
-     IN IF bad # {} THEN Reject(input, ei, {"assertion"}, nb)
+     IN IF bad # {}
+        THEN \* the first one in file order is reported, at its own posting, with the balance it was judged on
+             LET i == CHOOSE i \in bad : \A j \in bad : i <= j
+             IN RejectAt(input, ei, cur.deferred[i].post, {"assertion"}, Strip(AmtAdd(cur.deferred[i].at, d)))
         ELSE /\ bal' = SetBal(bal, a, nb)
              /\ Commit([cur.posts EXCEPT ![cur.unfilled].amt = d])
              /\ UNCHANGED <<input, acct, cmdt, prec, prices, ghost, status>>
